@@ -19,8 +19,12 @@ ASSUMPTIONS = ["which strings are syntax errors is decided by the parser stand-i
 BUDGET_S = {"quick": 120, "thorough": 1800}
 
 SDL = """
+directive @rej on ARGUMENT_DEFINITION | INPUT_FIELD_DEFINITION | FIELD_DEFINITION | FIELD
+input In { a: Int = 2 @rej }
+input In2 { n: In = {} m: [In] = [{}] }
 type T { a: Int b(x: Int): String t: T }
-type Query { a: Int b(x: Int = 1): String t: T l: [T] nn: Int! }
+type Query { a: Int b(x: Int = 1): String t: T l: [T] nn: Int! r(x: Int = 1 @rej, i: In): String @rej
+  r2(i: In = {}, j: In2 = {}): String }
 type Mutation { a: Int }
 """
 SCHEMA = S.parse_sdl(SDL)
@@ -42,6 +46,42 @@ FAULT_DOC = "{ a nn t { a b t { a } } l { a } x: b(x: 2) }"
 FAULT_PATHS = [("a",), ("nn",), ("t",), ("t", "a"), ("t", "b"), ("t", "t"), ("l",), ("l", 0, "a"), ("x",)]
 FAULT_KINDS = ["raise", "raise_te", "raise_te_ctor", "raise_shared", "return_exc", "none", "value"]
 COERCERS = ("default", "recording", "replacing", "suspending")
+
+
+class RejDirective:
+    """directive hooks that refuse (raise a plain or a library exception) when the scenario says so"""
+
+    def _maybe(self, ctx, kind):
+        scn = harness.scenario_of(ctx)
+        want = getattr(scn, "reject", None)
+        if want and want[0] == kind:
+            if want[1] == "library":
+                raise harness.UserError("dev", user_message="refused by the %s hook" % kind, extensions={"code": "REJ"})
+            raise ValueError("refused by the %s hook" % kind)
+
+    async def on_argument_execution(self, directive_args, next_directive, parent_node, argument_definition_node, argument_node, value, ctx):
+        self._maybe(ctx, "argument")
+        return await next_directive(parent_node, argument_definition_node, argument_node, value, ctx)
+
+    async def on_post_input_coercion(self, directive_args, next_directive, parent_node, value, ctx):
+        self._maybe(ctx, "input")
+        return await next_directive(parent_node, value, ctx)
+
+    async def on_field_execution(self, directive_args, next_resolver, parent, args, ctx, info):
+        self._maybe(ctx, "field")
+        return await next_resolver(parent, args, ctx, info)
+
+    async def on_field_collection(self, directive_args, next_directive, field_node, ctx):
+        self._maybe(ctx, "collection")
+        return await next_directive(field_node, ctx)
+
+
+HOOK_DOCS = [("{ a r }", None), ("{ r(x: 2) a }", None), ("{ r(i: {}) }", None), ("{ a r(i: {a: 3}, x: 5) }", None),
+             ("query($i: In) { r(i: $i) a }", {"i": {}}), ("query($i: In = {}) { r(i: $i) }", None), ("{ a @rej nn }", None),
+             ("{ t { a @rej } x: r }", None), ("{ r2 }", None), ("{ a r2(j: {}) }", None), ("{ r2(i: {a: 1}, j: {n: {a: 1}}) }", None),
+             ("query($j: In2) { r2(j: $j) }", {"j": {}}), ("query($j: In2) { r2(j: $j) }", {"j": {"n": {}, "m": []}}),
+             ("query($j: In2 = {m: [{a: 1}]}) { r2(j: $j, i: {a: 1}) }", None)]
+HOOK_KINDS = ["argument", "input", "field", "collection"]
 
 
 class Rec:
@@ -84,7 +124,7 @@ def engine(kind):
         kw["error_coercer"] = replacing_coercer
     elif kind == "suspending":
         kw["error_coercer"] = suspending_coercer
-    return explore.engine_for(("C18", kind), SCHEMA, **kw)
+    return explore.engine_for(("C18", kind), SCHEMA, directive_impl={"rej": RejDirective()}, **kw)
 
 
 def shards(tier, seed):
@@ -98,6 +138,7 @@ def shards(tier, seed):
     items.append(("bytes",))
     items.append(("opvars",))
     items.append(("fielderrors",))
+    items.append(("hookerrors",))
     return items
 
 
@@ -176,9 +217,10 @@ def expectations(q, op_name):
     return "runs"
 
 
-def one(q, coercer, op_name, variables, out, tag, faults=None):
+def one(q, coercer, op_name, variables, out, tag, faults=None, reject=None):
     eng = engine(coercer)
     scn = Scenario(root=ROOT, faults=dict(faults or {}), fault_values={p: object() for p, k in (faults or {}).items() if k == "value"})
+    scn.reject = reject
     del REC.calls[:]
     del REC.returned[:]
     out["counts"]["evaluations"] += 1
@@ -207,7 +249,7 @@ def one(q, coercer, op_name, variables, out, tag, faults=None):
             "summary": "%s for query=%r op=%r variables=%r coercer=%s: %r" % (clause, qq, op_name, variables, coercer, resp),
             "replay": {"query": q if isinstance(q, str) else None, "query_bytes_hex": q.hex() if isinstance(q, bytes) else None,
                        "op": op_name, "variables": variables, "coercer": coercer, "tag": tag,
-                       "faults": [[list(p), k] for p, k in (faults or {}).items()]}})
+                       "faults": [[list(p), k] for p, k in (faults or {}).items()], "reject": list(reject) if reject else None}})
     return resp
 
 
@@ -280,6 +322,15 @@ def run_shard(item):
                 for variables in (None, {}, {"v": 3}, {"v": "x"}, {"zz": 1}, [1], "str", 0, [["v", 1]]):
                     for c in COERCERS:
                         one(q, c, opn, variables, out, tag)
+    elif kind == "hookerrors":
+        # directive hooks (argument definition with an SDL default, input field default, field definition, query-side field
+        # directive, collection) that refuse with a plain / library exception: the error must still be located inside the query text
+        inputs = [d[0] for d in HOOK_DOCS]
+        for q, variables in HOOK_DOCS:
+            for hk in HOOK_KINDS:
+                for exc in ("plain", "library"):
+                    for c in COERCERS:
+                        one(q, c, None, variables, out, tag + "|" + hk, reject=(hk, exc))
     elif kind == "fielderrors":
         # every single and every pair of resolver failures (plain / library exceptions, exception as value, null, unserialisable)
         # at the 8 field positions of one document, under the four error coercers
@@ -319,5 +370,5 @@ def replay(rec):
     q = r["query"] if r.get("query") is not None else bytes.fromhex(r["query_bytes_hex"])
     out = _new_out()
     one(q, r["coercer"], r["op"], r["variables"], out, r.get("tag", "replay"),
-        faults={tuple(p): k for p, k in r.get("faults") or []})
+        faults={tuple(p): k for p, k in r.get("faults") or []}, reject=tuple(r["reject"]) if r.get("reject") else None)
     return out["violations"]
